@@ -80,9 +80,12 @@ def run(res, f, tier):
         if tag == "Map":
             samples.append({"lookup": "identifier on a Map input", "outcomes": ["[%s] %s" % ("; ".join(" ".join(c) for c in cs), r) for cs, r in outs]})
     # ---- symbols / functions
-    for (nm, slf, container, err, d) in (("symbol", "EvalContext", None, "InvalidSymbol", A["ctx_symbol"]), ("get_symbol", "RuleSet", None, "InvalidSymbol", A["rs_symbol"]),
-                                         ("get", "Symbols", "self.0", "InvalidSymbol", A["symbols_get"]),
-                                         ("get", "UserFunctions", "self.functions", "UnknownUserFunction", A["uf_get"])):
+    lookups = [("symbol", "EvalContext", None, "InvalidSymbol", A["ctx_symbol"])]
+    for q in A["symbol_chain"]:
+        slf_ = anchors.self_of(f, q).split("::")[-1]
+        lookups.append((f.bodies[q]["name"], slf_, "self.0" if slf_ == "Symbols" else None, "InvalidSymbol", q))
+    lookups.append(("get", "UserFunctions", "self.functions", "UnknownUserFunction", A["uf_get"]))
+    for (nm, slf, container, err, d) in lookups:
         outs, it = evalsum.summarize_fn(f, d, arg_names=["self", "name"])
         rows = sorted((c, r) for c, r, _, _ in outs)
         ok = len(rows) == 2
@@ -137,7 +140,7 @@ def run(res, f, tier):
         ok = not bad or wiring(bad[0]["missing"]) == wiring(bad[0]["unexpected"])
         ob(ok, "C10|dispatch|%s" % kind, "node kind %s does not pass its own name / index to the lookup" % kind,
            {"expected": wiring(bad[0]["missing"]) if bad else None, "actual": wiring(bad[0]["unexpected"]) if bad else None})
-    res.floor("lookup obligations", obligations, 30)
+    res.floor("lookup obligations", obligations, 37)
     res.coverage = {
         "explanation": "MIR summaries of the reference lookup (x10 input tags), symbol and function table lookups, the 20 cells of the index step and the "
                        "evaluator rows of Reference/Symbol/Function/Index were compared with the lookup rules of the property: key = the node's own unmodified "
